@@ -33,6 +33,12 @@ def Header.del (h : Header) (k : Bytes) : Header := h.filter fun p => p.1 ≠ k
 def mergeHeaders (into frm : Header) : Header :=
   frm.foldl (fun acc p => acc.put p.1 (acc.vals p.1 ++ p.2)) into
 
+/-- `setHeaders(into, from)` (fix F24): `into[k] = vals` for every key of `from` — unlike
+    `mergeHeaders` it may be repeated. It is what the Connect and gRPC clients use to expose the
+    response trailers, which a repeated `Receive` after the end of the stream reads again. -/
+def setHeaders (into frm : Header) : Header :=
+  frm.foldl (fun acc p => acc.put p.1 p.2) into
+
 /-! ### http.CanonicalHeaderKey -/
 
 def isTokenChar (c : UInt8) : Bool :=
